@@ -503,11 +503,14 @@ impl Dataset {
     ) -> Result<Self> {
         let (source_branch, version_number) = self.resolve_reference(version.into()).await?;
         let branch_location = self.find_branch_location(branch)?;
+        // The source version lives under the *source branch's* directory, which is not
+        // necessarily the branch this handle is checked out on.
+        let source_location = self.branch_location().find_branch(source_branch.clone())?;
         let clone_op = Operation::Clone {
             is_shallow: true,
             ref_name: source_branch.clone(),
             ref_version: version_number,
-            ref_path: String::from(self.uri()),
+            ref_path: source_location.uri,
             branch_name: Some(branch.to_string()),
         };
         let transaction = Transaction::new(version_number, clone_op, None);
@@ -1956,11 +1959,14 @@ impl Dataset {
     ) -> Result<Self> {
         let ref_ = version.into();
         let (ref_name, version_number) = self.resolve_reference(ref_).await?;
+        // The source version lives under the *source branch's* directory, which is not
+        // necessarily the branch this handle is checked out on.
+        let source_location = self.branch_location().find_branch(ref_name.clone())?;
         let clone_op = Operation::Clone {
             is_shallow: true,
             ref_name,
             ref_version: version_number,
-            ref_path: self.uri.clone(),
+            ref_path: source_location.uri,
             branch_name: None,
         };
         let transaction = Transaction::new(version_number, clone_op, None);
@@ -1979,9 +1985,10 @@ impl Dataset {
                 if let Some(version_number) = version_number {
                     Ok((branch, version_number))
                 } else {
+                    let location = self.branch_location().find_branch(branch.clone())?;
                     let version_number = self
                         .commit_handler
-                        .resolve_latest_location(&self.base, &self.object_store)
+                        .resolve_latest_location(&location.path, &self.object_store)
                         .await?
                         .version;
                     Ok((branch, version_number))
